@@ -1,5 +1,5 @@
 (* Proofs about GateModel: invariants over ALL schedules (action lists). *)
-From Coq Require Import List NArith Bool Lia.
+From Coq Require Import List NArith Bool Lia FinFun.
 From RV Require Import Gate.GateModel.
 Import ListNotations.
 Local Open Scope N_scope.
@@ -7,10 +7,11 @@ Local Open Scope N_scope.
 Arguments m_find : simpl never.
 Arguments m_ins : simpl never.
 Arguments m_del : simpl never.
-Arguments notify : simpl never.
+Arguments note_list : simpl never.
+Arguments note_step : simpl never.
 Arguments fupd : simpl never.
 
-Ltac des_st s := destruct s as [u su ns rq rt rd nc cl pb lk chn dl rc cp].
+Ltac des_st s := destruct s as [u su ns rq rt rd nc cl pb lk chn dl rc cp rn mu md].
 
 (* ------------------------------------------------------------------ basics *)
 
@@ -87,6 +88,26 @@ Proof.
   - destruct (m_find x su); cbn; repeat split; reflexivity.
 Qed.
 
+(* one send of notify_clones touches the queue of one clone, the list of sends still to do
+   and (at the end of notify_clones(Terminate)) the root's Terminated flag; nothing else *)
+Lemma note_step_shape s : exists cl rt rn,
+  note_step s = MkSt (upd s) (sus s) (nslot s) (rootq s) rt (root_dropped s) (nclone s) cl (pubs s) (links s)
+                     (chans s) (delivered s) (received s) (completed s) rn (m_upd s) (m_drop s).
+Proof.
+  unfold note_step. des_st s. cbn [rnote clones upd sus nslot rootq root_term root_dropped nclone pubs links chans delivered received completed m_upd m_drop].
+  destruct rn as [|[c x|] rest].
+  - exists cl, rt, []. reflexivity.
+  - destruct (negb (c_alive (cl c))).
+    + exists cl, rt, rest. reflexivity.
+    + destruct (N.of_nat (length (c_q (cl c))) <? cmd_queue_len).
+      * eexists _, rt, rest. reflexivity.
+      * exists cl, rt, (NSend c x :: rest). reflexivity.
+  - exists cl, true, rest. reflexivity.
+Qed.
+
+Ltac note_shape s := let cl := fresh "cl'" in let rt := fresh "rt'" in let rn := fresh "rn'" in
+  destruct (note_step_shape s) as (cl & rt & rn & ->).
+
 Lemma step_frame cf s a : pub_action a = false ->
   pubs (step cf s a) = pubs s /\ delivered (step cf s a) = delivered s /\
   completed (step cf s a) = completed s.
@@ -99,6 +120,7 @@ Proof.
       des_st s; cbn; repeat split; reflexivity.
   - des_st s; cbn; repeat split; reflexivity.
   - destruct (root_term s || root_dropped s); [repeat split; reflexivity|].
+    destruct (rnote s) as [|nh nt] eqn:En; [|note_shape s; repeat split; reflexivity].
     destruct (rootq s) as [|c q] eqn:E; [repeat split; reflexivity|].
     destruct (root_handle_frame (set_rootq q s) c) as (H1 & H2 & H3 & _).
     rewrite H1, H2, H3. des_st s; cbn; repeat split; reflexivity.
@@ -110,6 +132,7 @@ Proof.
     + destruct x as [e|y|]; cbn [clone_handle]; [destruct (cf_follow cf)|destruct (cf_follow cf)|];
         des_st s; cbn; repeat split; reflexivity.
   - destruct (c_alive (clones s c) && pub_idle s c && negb (c =? 0)); des_st s; cbn; repeat split; reflexivity.
+  - des_st s; cbn; repeat split; reflexivity.
 Qed.
 
 (* the receiver of a slot's channel, once dropped, stays dropped *)
@@ -125,6 +148,7 @@ Proof.
     unfold fupd. destruct (N.eqb_spec x y); [subst; cbn; exact H|exact H].
   - des_st s; cbn in *; exact H.
   - destruct (root_term s || root_dropped s); [exact H|].
+    destruct (rnote s) as [|nh nt] eqn:En; [|note_shape s; exact H].
     destruct (rootq s) as [|c q] eqn:E; [exact H|].
     destruct (root_handle_frame (set_rootq q s) c) as (_ & _ & _ & H4 & _).
     rewrite H4. des_st s; cbn in *; exact H.
@@ -138,12 +162,13 @@ Proof.
   - destruct (c_alive (clones s c) && pub_idle s c && negb (c =? 0)); des_st s; cbn in *; exact H.
   - destruct (pubs s p) as [n|n snap rest sent]; [destruct (pub_alive s p)|]; des_st s; cbn in *; exact H.
   - destruct (pubs s p) as [n|n snap [|[y l] rest] sent]; try exact H.
-    destruct (is_direct l); [des_st s; cbn in *; exact H|].
     destruct (negb (ch_rx (chans s y))) eqn:E1; [des_st s; cbn in *; exact H|].
+    destruct (is_direct l); [des_st s; cbn in *; exact H|].
     destruct (N.of_nat (length (ch_q (chans s y))) <? cf_cap cf); [|exact H].
     des_st s; cbn in *. unfold fupd. destruct (N.eqb_spec x y); [|exact H].
     subst. rewrite H in E1. discriminate.
   - destruct (pubs s p) as [n|n snap [|e rest] sent]; des_st s; cbn in *; exact H.
+  - des_st s; cbn in *. unfold fupd. destruct (x =? x0); [reflexivity|exact H].
 Qed.
 
 (* ------------------------------------------------- sequences of deliveries *)
@@ -268,6 +293,7 @@ Proof.
       des_st s; cbn in *; exact H.
   - des_st s; cbn in *; exact H.
   - destruct (root_term s || root_dropped s); [exact H|].
+    destruct (rnote s) as [|nh nt] eqn:En; [|note_shape s; exact H].
     destruct (rootq s) as [|c q] eqn:E; [exact H|].
     apply root_handle_upd_nodup. des_st s; cbn in *; exact H.
   - destruct (pub_idle s 0); des_st s; cbn in *; exact H.
@@ -282,11 +308,12 @@ Proof.
   - destruct (c_alive (clones s c) && pub_idle s c && negb (c =? 0)); des_st s; cbn in *; exact H.
   - destruct (pubs s p) as [n|n snap rest sent]; [destruct (pub_alive s p)|]; des_st s; cbn in *; exact H.
   - destruct (pubs s p) as [n|n snap [|[y l] rest] sent]; try exact H.
-    destruct (is_direct l); [des_st s; cbn in *; exact H|].
     destruct (negb (ch_rx (chans s y))); [des_st s; cbn in *; exact H|].
+    destruct (is_direct l); [des_st s; cbn in *; exact H|].
     destruct (N.of_nat (length (ch_q (chans s y))) <? cf_cap cf); [|exact H].
     des_st s; cbn in *; exact H.
   - destruct (pubs s p) as [n|n snap [|e rest] sent]; des_st s; cbn in *; exact H.
+  - des_st s; cbn in *; exact H.
 Qed.
 
 (* ------------------------------------ what the three publisher actions do *)
@@ -314,11 +341,11 @@ Lemma step_deliver_spec cf s p :
       delivered s' = delivered s /\ rx_of s y = false)).
 Proof.
   cbn [step]. destruct (pubs s p) as [n|n snap [|[y l] rest] sent] eqn:Ep; try (left; reflexivity).
-  destruct (is_direct l).
-  { right. exists n, snap, y, l, rest, sent. des_st s; cbn in *. repeat split. left. split; reflexivity. }
   destruct (negb (ch_rx (chans s y))) eqn:E1.
   { right. exists n, snap, y, l, rest, sent. apply negb_true_iff in E1.
     des_st s; cbn in *. repeat split. right. repeat split. exact E1. }
+  destruct (is_direct l).
+  { right. exists n, snap, y, l, rest, sent. des_st s; cbn in *. repeat split. left. split; reflexivity. }
   destruct (N.of_nat (length (ch_q (chans s y))) <? cf_cap cf); [|left; reflexivity].
   right. exists n, snap, y, l, rest, sent. des_st s; cbn in *. repeat split. left. split; reflexivity.
 Qed.
@@ -346,7 +373,7 @@ Proof.
       - intros p. eapply boundP_rx_mono; [exact Hrx|apply H2].
       - exact H3.
       - intros p n sn b Hin e He. destruct (H4 p n sn b Hin e He) as [?|?]; [left; assumption|right; apply Hrx; assumption]. }
-  destruct a as [| | | | | | | | | |p|p|p]; try discriminate Ha; clear Ha.
+  destruct a as [| | | | | | | | | |p|p|p|xd]; try discriminate Ha; clear Ha.
   - (* begin *)
     destruct (step_begin_spec cf s p) as [E|(n & Ep & _ & Ep' & Ed & Ec)].
     { rewrite E. repeat split; assumption. }
@@ -636,6 +663,7 @@ Proof.
     destruct (ch_q (chans s x)) as [|[p n] q]; [exact H|]. unfold InvL in *. des_st s; cbn in *. exact H.
   - unfold InvL in *. des_st s; cbn in *. apply invL_push_misc; [reflexivity|exact H].
   - destruct (root_term s || root_dropped s); [exact H|].
+    destruct (rnote s) as [|nh nt] eqn:En; [|note_shape s; exact H].
     destruct (rootq s) as [|c q] eqn:E; [exact H|]. apply invL_root_handle; assumption.
   - destruct (pub_idle s 0); [|exact H]. unfold InvL in *. des_st s; cbn in *. exact H.
   - unfold InvL in *. des_st s; cbn in *. apply invL_push_misc; [reflexivity|exact H].
@@ -647,10 +675,11 @@ Proof.
     unfold InvL in *. des_st s; cbn in *. apply invL_push_misc; [reflexivity|exact H].
   - destruct (pubs s p) as [n|n snap rest sent]; [destruct (pub_alive s p)|]; try exact H.
   - destruct (pubs s p) as [n|n snap [|[y l] rest] sent]; try exact H.
-    destruct (is_direct l); [exact H|].
     destruct (negb (ch_rx (chans s y))); [exact H|].
+    destruct (is_direct l); [exact H|].
     destruct (N.of_nat (length (ch_q (chans s y))) <? cf_cap cf); exact H.
   - destruct (pubs s p) as [n|n snap [|e rest] sent]; exact H.
+  - exact H.
 Qed.
 
 Lemma invL_init : InvL init.
@@ -694,7 +723,7 @@ Proof.
   intros (D1 & D2 & _ & _) (_ & _ & K3 & _) (H2 & H3).
   destruct (pub_action a) eqn:Ha.
   2:{ destruct (step_frame cf s a Ha) as (Ep & Ed & _). unfold InvLD. rewrite Ep, Ed. split; assumption. }
-  destruct a as [| | | | | | | | | |p|p|p]; try discriminate Ha; clear Ha.
+  destruct a as [| | | | | | | | | |p|p|p|xd]; try discriminate Ha; clear Ha.
   - destruct (step_begin_spec cf s p) as [E|(n & Ep & _ & Ep' & Ed & _)].
     { rewrite E. split; assumption. }
     unfold InvLD. rewrite Ep', Ed. split; [|exact H3].
@@ -768,10 +797,10 @@ Proof. intros Hcf. destruct (invFixed_run cf tr Hcf) as (_ & _ & _ & H). apply H
    the next update twice. Schedule = the case `k;c 1;d 1;F 1;c 1;u 0`. *)
 Definition dup_witness : list action :=
   [AClone; ARoot;                       (* k *)
-   ASendSub 1; ARoot;                   (* c 1 *)
-   ASendUnsub 1; ARoot;                 (* d 1 *)
+   ASendSub 1; ARoot; ARoot;            (* c 1 (Subscribe handled; FollowSubscribe sent to clone 1) *)
+   ASendUnsub 1; ARoot; ARoot;          (* d 1 *)
    ACloneStep 1;                        (* F 1: FollowSubscribe replayed, process() returns Active *)
-   ASendSub 1; ARoot;                   (* c 1 *)
+   ASendSub 1; ARoot; ARoot;            (* c 1 *)
    ABegin 0; ADeliver 0; ADeliver 0; AEnd 0].
 
 Lemma follow_replay_refuted :
@@ -790,74 +819,378 @@ Proof. destruct (invD_run cf tr) as (_ & _ & _ & H). intros H1 H2. exact (H p n 
 
 (* ------------------------------------------------------------ termination *)
 
-(* once the root handled Terminate, every attached live clone has seen it or has it queued *)
-Definition InvT (s : st) : Prop :=
-  root_term s = true -> forall c, c_alive (clones s c) = true -> c_att (clones s c) = true ->
-  c_term (clones s c) = true \/ In FTerm (c_q (clones s c)).
+(* the list of sends notify_clones still has to do: one command, distinct clones, and the
+   final "return Err(Terminated)" exactly when the command is Terminate *)
+Definition sends_of (x : ccmd) (cs : list N) : list nstep := map (fun c => NSend c x) cs.
+Definition fin_of (x : ccmd) : list nstep := if is_fterm x then [NFinTerm] else [].
+Definition note_ok (r : list nstep) : Prop :=
+  exists cs x, NoDup cs /\ r = sends_of x cs ++ fin_of x.
 
-Lemma notify_other x y cl c :
-  c_alive (notify x cl c) = c_alive (cl c) /\ c_att (notify x cl c) = c_att (cl c) /\
-  c_term (notify x cl c) = c_term (cl c) /\
-  (In y (c_q (cl c)) -> In y (c_q (notify x cl c))).
+Lemma note_ok_nil : note_ok [].
+Proof. exists [], (FUnsub 0). split; [constructor|reflexivity]. Qed.
+
+Lemma in_fin_of_send c y x : ~ In (NSend c y) (fin_of x).
+Proof. unfold fin_of. destruct (is_fterm x); cbn; [intros [D|[]]; discriminate D|intros []]. Qed.
+
+Lemma in_sends_of c y x cs : In (NSend c y) (sends_of x cs) <-> y = x /\ In c cs.
 Proof.
-  unfold notify. destruct (c_alive (cl c) && c_att (cl c)); cbn; repeat split; auto.
-  intros H. apply in_or_app. left. exact H.
+  unfold sends_of. rewrite in_map_iff. split.
+  - intros (c' & E & Hin). inversion E; subst. auto.
+  - intros [-> Hin]. exists c. auto.
 Qed.
 
-Lemma notify_reaches x cl c : c_alive (cl c) = true -> c_att (cl c) = true -> In x (c_q (notify x cl c)).
+Lemma fin_in_sends_of x cs : ~ In NFinTerm (sends_of x cs).
+Proof. unfold sends_of. rewrite in_map_iff. intros (c & E & _). discriminate E. Qed.
+
+Lemma note_ok_cons_send c x rest : note_ok (NSend c x :: rest) ->
+  note_ok rest /\ (forall y, ~ In (NSend c y) rest) /\ (x = FTerm -> In NFinTerm rest) /\
+  (In NFinTerm rest -> x = FTerm).
 Proof.
-  intros H1 H2. unfold notify. rewrite H1, H2. cbn. apply in_or_app. right. left. reflexivity.
+  intros (cs & x0 & Hnd & E). destruct cs as [|c0 cs].
+  - cbn in E. unfold fin_of in E. destruct (is_fterm x0); discriminate E.
+  - cbn in E. inversion E; subst c0 x0. clear E. inversion Hnd as [|? ? Hn Hd]; subst.
+    split; [exists cs, x; split; [exact Hd|reflexivity]|]. split; [|split].
+    + intros y Hin. apply in_app_or in Hin. destruct Hin as [Hin|Hin].
+      * apply in_sends_of in Hin. destruct Hin as [_ Hin]. exact (Hn Hin).
+      * exact (in_fin_of_send _ _ _ Hin).
+    + intros ->. apply in_or_app. right. left. reflexivity.
+    + intros Hin. apply in_app_or in Hin. destruct Hin as [Hin|Hin]; [destruct (fin_in_sends_of _ _ Hin)|].
+      unfold fin_of in Hin. destruct x; cbn in Hin; try contradiction. reflexivity.
 Qed.
 
-Lemma invT_step cf s a : InvT s -> InvT (step cf s a).
+Lemma note_ok_cons_fin rest : note_ok (NFinTerm :: rest) -> rest = [].
+Proof.
+  intros (cs & x & _ & E). destruct cs as [|c0 cs]; [|discriminate E].
+  cbn in E. unfold fin_of in E. destruct (is_fterm x); inversion E; reflexivity.
+Qed.
+
+Lemma clone_ids_nodup n : NoDup (clone_ids n).
+Proof.
+  unfold clone_ids. apply Injective_map_NoDup; [|apply seq_NoDup].
+  intros a b E. apply Nat2N.inj. exact E.
+Qed.
+
+Lemma in_clone_ids c n : 0 < c <= n -> In c (clone_ids n).
+Proof.
+  intros H. unfold clone_ids. apply in_map_iff. exists (N.to_nat c). split; [apply N2Nat.id|].
+  apply in_seq. lia.
+Qed.
+
+Lemma note_list_ok x s : note_ok (note_list x s).
+Proof.
+  unfold note_list. exists (targets s), x. split; [|reflexivity].
+  unfold targets. apply NoDup_filter, clone_ids_nodup.
+Qed.
+
+Lemma note_list_fin x s : In NFinTerm (note_list x s) -> x = FTerm.
+Proof.
+  unfold note_list. intros Hin. apply in_app_or in Hin. destruct Hin as [Hin|Hin].
+  - apply in_map_iff in Hin. destruct Hin as (c & E & _). discriminate E.
+  - destruct x; cbn in Hin; try contradiction. reflexivity.
+Qed.
+
+Lemma note_list_term_reaches s c : c_att (clones s c) = true -> 0 < c <= nclone s ->
+  In (NSend c FTerm) (note_list FTerm s).
+Proof.
+  intros Ha Hc. unfold note_list. apply in_or_app. left. apply in_map_iff. exists c. split; [reflexivity|].
+  unfold targets. apply filter_In. split; [apply in_clone_ids; exact Hc|exact Ha].
+Qed.
+
+(* ---- invariant A: clone ids are below nclone *)
+Definition InvAP (nc : N) (rq : list cmd) (cl : N -> clone) : Prop :=
+  0 < nc /\ (forall c, c_att (cl c) = true -> 0 < c < nc) /\ (forall c, In (CAttach c) rq -> 0 < c < nc).
+Definition InvA (s : st) : Prop := InvAP (nclone s) (rootq s) (clones s).
+
+Lemma invA_push nc rq cl x : (forall c, x <> CAttach c) -> InvAP nc rq cl -> InvAP nc (rq ++ [x]) cl.
+Proof.
+  intros Hx (H0 & H1 & H2). split; [exact H0|]. split; [exact H1|].
+  intros c H. apply in_app_or in H. destruct H as [H|[E|[]]]; [apply H2; exact H|destruct (Hx _ E)].
+Qed.
+
+Lemma invA_pop nc c0 q cl : InvAP nc (c0 :: q) cl -> InvAP nc q cl.
+Proof. intros (H0 & H1 & H2). split; [exact H0|]. split; [exact H1|]. intros c H. apply H2. right. exact H. Qed.
+
+Lemma invA_clones nc rq cl cl' : (forall c, c_att (cl' c) = true -> c_att (cl c) = true) ->
+  InvAP nc rq cl -> InvAP nc rq cl'.
+Proof. intros Hc (H0 & H1 & H2). split; [exact H0|]. split; [|exact H2]. intros c H. apply H1, Hc, H. Qed.
+
+Lemma invA_root_handle s c q : rootq s = c :: q -> InvA s -> InvA (root_handle (set_rootq q s) c).
+Proof.
+  unfold InvA. intros E H. des_st s. cbn in *. subst rq.
+  pose proof (invA_pop _ _ _ _ H) as Hp.
+  destruct c as [l|x|x [|]|c|c|]; cbn; try exact Hp.
+  - destruct (m_find x u); exact Hp.
+  - destruct (m_find x su); exact Hp.
+  - destruct H as (H0 & H1 & H2). destruct Hp as (_ & _ & H2'). split; [exact H0|]. split; [|exact H2'].
+    intros c0 H. unfold fupd in H. destruct (N.eqb_spec c0 c); [subst; apply H2; left; reflexivity|apply H1; exact H].
+  - eapply invA_clones; [|exact Hp]. intros c0. unfold fupd. destruct (c0 =? c); cbn; [discriminate|auto].
+Qed.
+
+Lemma invA_step cf s a : InvA s -> InvA (step cf s a).
 Proof.
   intros H. destruct a; cbn [step]; try exact H.
-  - destruct (links s l); [destruct (root_dropped s)|..]; exact H.
-  - destruct (links s l) as [| |x b0]; [| |destruct (is_direct l)]; exact H.
-  - destruct (links s l) as [| |x b0]; [| |destruct (Bool.eqb b b0)]; exact H.
+  - destruct (links s l); [destruct (root_dropped s)|..]; try exact H.
+    unfold InvA in *. des_st s; cbn in *. apply invA_push; [discriminate|exact H].
+  - destruct (links s l) as [| |x b0]; try exact H.
+    assert (H' : InvA (set_rootq (rootq s ++ [CUnsub x]) (set_links (fupd (links s) l LIdle) s))).
+    { unfold InvA in *. des_st s; cbn in *. apply invA_push; [discriminate|exact H]. }
+    destruct (is_direct l); exact H'.
+  - destruct (links s l) as [| |x b0]; [| |destruct (Bool.eqb b b0)]; try exact H.
+    unfold InvA in *. des_st s; cbn in *. apply invA_push; [discriminate|exact H].
   - destruct (links s l) as [| |x b0]; [| |destruct (is_direct l); [|destruct (ch_q (chans s x)) as [|[p n] q]]]; exact H.
-  - destruct (root_term s || root_dropped s) eqn:Et; [exact H|].
-    apply orb_false_iff in Et. destruct Et as [Et _].
-    destruct (rootq s) as [|c q] eqn:E; [exact H|].
-    unfold InvT in *. des_st s. cbn in *. subst rt.
-    destruct c as [l|x|x [|]|c|c|]; cbn; try (intros Hf; discriminate Hf).
-    + destruct (m_find x u); cbn; intros Hf; discriminate Hf.
-    + destruct (m_find x su); cbn; intros Hf; discriminate Hf.
-    + intros _ c Ha Hatt. right.
-      destruct (notify_other FTerm FTerm cl c) as (E1 & E2 & _). rewrite E1 in Ha. rewrite E2 in Hatt.
-      apply notify_reaches; assumption.
+  - unfold InvA in *. des_st s; cbn in *. apply invA_push; [discriminate|exact H].
+  - destruct (root_term s || root_dropped s); [exact H|].
+    destruct (rnote s) as [|nh nt] eqn:En.
+    + destruct (rootq s) as [|c q] eqn:E; [exact H|]. apply invA_root_handle; assumption.
+    + unfold note_step. rewrite En. destruct nh as [c x|].
+      * destruct (negb (c_alive (clones s c))); [unfold InvA in *; des_st s; exact H|].
+        destruct (N.of_nat (length (c_q (clones s c))) <? cmd_queue_len); [|exact H].
+        unfold InvA in *. des_st s; cbn in *. eapply invA_clones; [|exact H].
+        intros c0. unfold fupd. destruct (N.eqb_spec c0 c); [subst; cbn; auto|auto].
+      * unfold InvA in *. des_st s; exact H.
   - destruct (pub_idle s 0); exact H.
-  - unfold InvT in *. des_st s. cbn in *. intros Ht c. unfold fupd.
-    destruct (c =? nc); cbn; [intros _ Hf; discriminate Hf|apply H, Ht].
-  - destruct (c_alive (clones s c) && negb (c_term (clones s c))) eqn:Eg; [|exact H].
-    destruct (c_q (clones s c)) as [|x q] eqn:Eq.
-    + destruct (root_dropped s); [|exact H]. unfold InvT in *. des_st s. cbn in *.
-      intros Ht c'. unfold fupd. destruct (N.eqb_spec c' c); [subst; cbn; auto|apply H, Ht].
-    + assert (Hmid : InvT (set_clones (fupd (clones s) c (set_cq q (clones s c))) s) \/ x = FTerm).
-      { destruct x as [e|y|]; [left|left|right; reflexivity];
-          unfold InvT in *; des_st s; cbn in *; intros Ht c'; unfold fupd;
-          (destruct (N.eqb_spec c' c); [subst c'; cbn; intros Ha Hatt;
-             destruct (H Ht c Ha Hatt) as [?|Hin]; [left; assumption|right; rewrite Eq in Hin; destruct Hin as [Hd|?]; [discriminate Hd|assumption]]
-           |apply H, Ht]). }
-      destruct x as [e|y|]; cbn [clone_handle].
-      * destruct Hmid as [Hmid|Hd]; [|discriminate Hd]. destruct (cf_follow cf); exact Hmid.
-      * destruct Hmid as [Hmid|Hd]; [|discriminate Hd]. destruct (cf_follow cf); exact Hmid.
-      * unfold InvT in *. des_st s. cbn in *. intros Ht c'.
-        destruct (N.eq_dec c' c) as [->|Hn].
-        -- rewrite !fupd_eq. cbn. auto.
-        -- rewrite !fupd_neq by exact Hn. apply H, Ht.
+  - unfold InvA in *. des_st s; cbn in *. destruct H as (H0 & H1 & H2). split; [lia|]. split.
+    + intros c H. unfold fupd in H. destruct (N.eqb_spec c nc); [discriminate H|apply H1 in H; lia].
+    + intros c H. apply in_app_or in H. destruct H as [H|[E|[]]]; [apply H2 in H; lia|inversion E; subst; lia].
+  - destruct (c_alive (clones s c) && negb (c_term (clones s c))); [|exact H].
+    destruct (c_q (clones s c)) as [|x q].
+    + destruct (root_dropped s); [|exact H]. unfold InvA in *. des_st s; cbn in *.
+      eapply invA_clones; [|exact H]. intros c0. unfold fupd. destruct (N.eqb_spec c0 c); [subst; cbn; auto|auto].
+    + assert (Hmid : InvA (set_clones (fupd (clones s) c (set_cq q (clones s c))) s)).
+      { unfold InvA in *. des_st s; cbn in *. eapply invA_clones; [|exact H].
+        intros c0. unfold fupd. destruct (N.eqb_spec c0 c); [subst; cbn; auto|auto]. }
+      destruct x as [e|y|]; cbn [clone_handle]; [destruct (cf_follow cf); exact Hmid|destruct (cf_follow cf); exact Hmid|].
+      unfold InvA in *. des_st s; cbn in *. eapply invA_clones; [|exact H].
+      intros c0 Hatt. destruct (N.eq_dec c0 c) as [->|Hn];
+        [rewrite !fupd_eq in Hatt; cbn in Hatt; exact Hatt|rewrite !fupd_neq in Hatt by exact Hn; exact Hatt].
   - destruct (c_alive (clones s c) && pub_idle s c && negb (c =? 0)); [|exact H].
-    unfold InvT in *. des_st s. cbn in *. intros Ht c'. unfold fupd.
-    destruct (c' =? c); cbn; [intros Hf; discriminate Hf|apply H, Ht].
+    unfold InvA in *. des_st s; cbn in *. apply invA_push; [discriminate|].
+    eapply invA_clones; [|exact H]. intros c0. unfold fupd. destruct (N.eqb_spec c0 c); [subst; cbn; auto|auto].
   - destruct (pubs s p) as [n|n snap rest sent]; [destruct (pub_alive s p)|]; exact H.
   - destruct (pubs s p) as [n|n snap [|[y l] rest] sent]; try exact H.
-    destruct (is_direct l); [exact H|]. destruct (negb (ch_rx (chans s y))); [exact H|].
+    destruct (negb (ch_rx (chans s y))); [exact H|]. destruct (is_direct l); [exact H|].
     destruct (N.of_nat (length (ch_q (chans s y))) <? cf_cap cf); exact H.
   - destruct (pubs s p) as [n|n snap [|e rest] sent]; exact H.
 Qed.
 
-Lemma invT_run cf tr : InvT (run cf tr).
-Proof. unfold run. apply run_from_inv; [intros s a; apply invT_step|]. intros Hf. discriminate Hf. Qed.
+Lemma invA_init : InvA init.
+Proof. unfold InvA, InvAP. cbn. split; [lia|]. split; [intros c D; discriminate D|intros c []]. Qed.
+
+(* ---- invariant T: Terminate is never lost. Once the root has taken Terminate off its queue,
+   every live attached clone has seen it, or has it in its command queue, or is still on the
+   list of sends notify_clones has to do (the root may be waiting for room in a clone's
+   queue). Queues never exceed COMMAND_QUEUE_LEN. *)
+Definition seen_term (k : clone) : Prop := c_term k = true \/ In FTerm (c_q k).
+
+Definition InvTP (rt rd : bool) (cl : N -> clone) (rn : list nstep) : Prop :=
+  note_ok rn /\
+  (forall c, N.of_nat (length (c_q (cl c))) <= cmd_queue_len) /\
+  (rt = true -> forall c, c_alive (cl c) = true -> c_att (cl c) = true -> seen_term (cl c)) /\
+  (In NFinTerm rn -> forall c, c_alive (cl c) = true -> c_att (cl c) = true ->
+     seen_term (cl c) \/ In (NSend c FTerm) rn) /\
+  (rd = false -> forall c, c_alive (cl c) = true -> seen_term (cl c) ->
+     (rt = true \/ In NFinTerm rn) /\ forall x, ~ In (NSend c x) rn).
+Definition InvT (s : st) : Prop := InvTP (root_term s) (root_dropped s) (clones s) (rnote s).
+
+(* clones change at one index *)
+Lemma invT_note_send rd cl c x rest :
+  InvTP false rd cl (NSend c x :: rest) ->
+  (c_alive (cl c) = false -> InvTP false rd cl rest) /\
+  (c_alive (cl c) = true -> N.of_nat (length (c_q (cl c))) < cmd_queue_len ->
+   InvTP false rd (fupd cl c (push_cmd x (cl c))) rest).
+Proof.
+  intros (Hok & H8 & H1 & H2 & H5).
+  destruct (note_ok_cons_send _ _ _ Hok) as (Hok' & Hnd & Hfin & Hfin').
+  split.
+  - intros Hdead. split; [exact Hok'|]. split; [exact H8|]. split; [intros D; discriminate D|]. split.
+    + intros Hin c0 Ha Hatt. destruct (H2 (or_intror Hin) c0 Ha Hatt) as [?|[E|?]]; [left; assumption| |right; assumption].
+      inversion E; subst. rewrite Hdead in Ha. discriminate Ha.
+    + intros Hrd c0 Ha Hs. destruct (H5 Hrd c0 Ha Hs) as [[D|[D|Hin]] Hno]; [discriminate D|discriminate D|].
+      split; [right; exact Hin|]. intros y Hy. apply (Hno y). right. exact Hy.
+  - intros Halive Hroom. split; [exact Hok'|]. split; [|split; [intros D; discriminate D|split]].
+    + intros c0. unfold fupd. destruct (N.eqb_spec c0 c); [|apply H8]. subst c0. cbn. rewrite app_length. cbn.
+      unfold cmd_queue_len in *. lia.
+    + intros Hin c0. unfold fupd. destruct (N.eqb_spec c0 c).
+      * subst c0. cbn. intros _ _. left. right. apply in_or_app. right. left. apply Hfin'. exact Hin.
+      * intros Ha Hatt. destruct (H2 (or_intror Hin) c0 Ha Hatt) as [?|[E|?]]; [left; assumption| |right; assumption].
+        inversion E; subst. contradiction.
+    + intros Hrd c0. unfold fupd. destruct (N.eqb_spec c0 c).
+      * subst c0. cbn. intros _ Hs.
+        assert (Hx : x = FTerm).
+        { destruct Hs as [Ht|Hin].
+          - exfalso. destruct (H5 Hrd c Halive (or_introl Ht)) as [_ Hno]. apply (Hno x). left. reflexivity.
+          - apply in_app_or in Hin. destruct Hin as [Hin|[E|[]]]; [|exact E].
+            exfalso. destruct (H5 Hrd c Halive (or_intror Hin)) as [_ Hno]. apply (Hno x). left. reflexivity. }
+        split; [right; apply Hfin, Hx|exact Hnd].
+      * intros Ha Hs. destruct (H5 Hrd c0 Ha Hs) as [[D|[D|Hin]] Hno]; [discriminate D|discriminate D|].
+        split; [right; exact Hin|]. intros y Hy. apply (Hno y). right. exact Hy.
+Qed.
+
+Lemma invT_note_fin rd cl rest : InvTP false rd cl (NFinTerm :: rest) -> InvTP true rd cl rest.
+Proof.
+  intros (Hok & H8 & H1 & H2 & H5). pose proof (note_ok_cons_fin _ Hok) as ->.
+  split; [exact note_ok_nil|]. split; [exact H8|]. split; [|split].
+  - intros _ c Ha Hatt. destruct (H2 (or_introl eq_refl) c Ha Hatt) as [?|[D|[]]]; [assumption|discriminate D].
+  - intros [].
+  - intros Hrd c Ha Hs. split; [left; reflexivity|intros x []].
+Qed.
+
+(* nobody has seen Terminate while the root is between two commands *)
+Lemma invT_quiet rd cl : InvTP false rd cl [] -> rd = false ->
+  forall c, c_alive (cl c) = true -> ~ seen_term (cl c).
+Proof.
+  intros (_ & _ & _ & _ & H5) Hrd c Ha Hs. destruct (H5 Hrd c Ha Hs) as [[D|[]] _]. discriminate D.
+Qed.
+
+Lemma invT_same_but_att rt rd cl cl' rn :
+  (forall c, c_alive (cl' c) = c_alive (cl c) /\ c_term (cl' c) = c_term (cl c) /\ c_q (cl' c) = c_q (cl c)) ->
+  (forall c, c_alive (cl c) = true -> ~ seen_term (cl c)) ->
+  rt = false -> ~ In NFinTerm rn -> note_ok rn ->
+  InvTP rt rd cl [] -> InvTP rt rd cl' rn.
+Proof.
+  intros Hsame Hq Hrt Hnf Hok (_ & H8 & _). split; [exact Hok|]. split; [|split; [|split]].
+  - intros c. destruct (Hsame c) as (_ & _ & ->). apply H8.
+  - intros D. rewrite Hrt in D. discriminate D.
+  - intros Hin. destruct (Hnf Hin).
+  - intros _ c Ha Hs. exfalso. destruct (Hsame c) as (E1 & E2 & E3). rewrite E1 in Ha.
+    apply (Hq c Ha). unfold seen_term in *. rewrite E2, E3 in Hs. exact Hs.
+Qed.
+
+Lemma invT_root_handle s c q : rootq s = c :: q -> root_term s = false -> root_dropped s = false -> rnote s = [] ->
+  InvA s -> InvT s -> InvT (root_handle (set_rootq q s) c).
+Proof.
+  unfold InvT, InvA. intros E Hrt Hrd Hrn HA H. des_st s. cbn in *. subst rq rt rd rn.
+  pose proof (invT_quiet _ _ H eq_refl) as Hq.
+  assert (Hsame0 : forall c0 : N, c_alive (cl c0) = c_alive (cl c0) /\ c_term (cl c0) = c_term (cl c0) /\ c_q (cl c0) = c_q (cl c0))
+    by (intros; repeat split).
+  destruct c as [l|x|x [|]|c|c|]; cbn.
+  - eapply invT_same_but_att; [exact Hsame0|exact Hq|reflexivity| |apply note_list_ok|exact H].
+    intros Hin. apply note_list_fin in Hin. discriminate Hin.
+  - eapply invT_same_but_att; [exact Hsame0|exact Hq|reflexivity| |apply note_list_ok|exact H].
+    intros Hin. apply note_list_fin in Hin. discriminate Hin.
+  - destruct (m_find x u); exact H.
+  - destruct (m_find x su); exact H.
+  - eapply invT_same_but_att; [|exact Hq|reflexivity|intros []|exact note_ok_nil|exact H].
+    intros c0. unfold fupd. destruct (c0 =? c) eqn:Ec; [apply N.eqb_eq in Ec; subst; cbn; repeat split|repeat split].
+  - eapply invT_same_but_att; [|exact Hq|reflexivity|intros []|exact note_ok_nil|exact H].
+    intros c0. unfold fupd. destruct (c0 =? c) eqn:Ec; [apply N.eqb_eq in Ec; subst; cbn; repeat split|repeat split].
+  - (* Terminate: every attached clone is on the list *)
+    destruct H as (_ & H8 & _). split; [apply note_list_ok|]. split; [exact H8|]. split; [intros D; discriminate D|]. split.
+    + intros _ c Ha Hatt. right. apply note_list_term_reaches; [exact Hatt|].
+      cbn. destruct HA as (_ & HA1 & _). specialize (HA1 c Hatt). lia.
+    + intros _ c Ha Hs. destruct (Hq c Ha Hs).
+Qed.
+
+Lemma invT_step cf s a : InvA s -> InvT s -> InvT (step cf s a).
+Proof.
+  intros HA H. destruct a; cbn [step]; try exact H.
+  - destruct (links s l); [destruct (root_dropped s)|..]; exact H.
+  - destruct (links s l) as [| |x b0]; [| |destruct (is_direct l)]; exact H.
+  - destruct (links s l) as [| |x b0]; [| |destruct (Bool.eqb b b0)]; exact H.
+  - destruct (links s l) as [| |x b0]; [| |destruct (is_direct l); [|destruct (ch_q (chans s x)) as [|[p n] q]]]; exact H.
+  - (* ARoot *)
+    destruct (root_term s || root_dropped s) eqn:Et; [exact H|].
+    apply orb_false_iff in Et. destruct Et as [Et Ed].
+    destruct (rnote s) as [|nh nt] eqn:En.
+    + destruct (rootq s) as [|c q] eqn:E; [exact H|]. apply invT_root_handle; assumption.
+    + unfold note_step. rewrite En. unfold InvT in H. rewrite Et, En in H. destruct nh as [c x|].
+      * destruct (invT_note_send _ _ _ _ _ H) as [Hdead Hpush].
+        destruct (c_alive (clones s c)) eqn:Ea; cbn [negb].
+        -- destruct (N.ltb_spec (N.of_nat (length (c_q (clones s c)))) cmd_queue_len) as [Hlt|Hge].
+           ++ unfold InvT. des_st s. cbn in *. subst rt. apply Hpush; [reflexivity|exact Hlt].
+           ++ unfold InvT. rewrite Et, En. exact H.
+        -- unfold InvT. des_st s. cbn in *. subst rt. apply Hdead. reflexivity.
+      * unfold InvT. des_st s. cbn in *. apply invT_note_fin. exact H.
+  - (* ARootDrop *)
+    destruct (pub_idle s 0); [|exact H]. unfold InvT in *. des_st s. cbn in *.
+    destruct H as (Hok & H8 & H1 & H2 & H5). repeat split; try assumption; try discriminate.
+  - (* AClone *)
+    unfold InvT in *. des_st s. cbn in *. destruct H as (Hok & H8 & H1 & H2 & H5).
+    split; [exact Hok|]. split; [|split; [|split]].
+    + intros c. unfold fupd. destruct (c =? nc); [cbn; unfold cmd_queue_len; lia|apply H8].
+    + intros Hrt c. unfold fupd. destruct (c =? nc); [cbn; intros _ D; discriminate D|apply H1, Hrt].
+    + intros Hin c. unfold fupd. destruct (c =? nc); [cbn; intros _ D; discriminate D|apply H2, Hin].
+    + intros Hrd c. unfold fupd. destruct (c =? nc); [cbn; intros _ [D|[]]; discriminate D|apply H5, Hrd].
+  - (* ACloneStep *)
+    destruct (c_alive (clones s c) && negb (c_term (clones s c))) eqn:Eg; [|exact H].
+    apply andb_true_iff in Eg. destruct Eg as [Ea Ent]. apply negb_true_iff in Ent.
+    destruct (c_q (clones s c)) as [|x q] eqn:Eq.
+    + destruct (root_dropped s) eqn:Ed; [|exact H]. unfold InvT in *. des_st s. cbn in *. subst rd.
+      destruct H as (Hok & H8 & H1 & H2 & H5). split; [exact Hok|]. split; [|split; [|split]].
+      * intros c0. unfold fupd. destruct (N.eqb_spec c0 c); [subst; cbn; apply H8|apply H8].
+      * intros Hrt c0. unfold fupd. destruct (N.eqb_spec c0 c); [subst; cbn; intros _ _; left; reflexivity|apply H1, Hrt].
+      * intros Hin c0. unfold fupd. destruct (N.eqb_spec c0 c); [subst; cbn; intros _ _; left; left; reflexivity|apply H2, Hin].
+      * intros D. discriminate D.
+    + (* one command taken off the queue *)
+      assert (Hgen : forall cl', (forall c0, c0 <> c -> cl' c0 = clones s c0) ->
+                c_alive (cl' c) = true -> c_att (cl' c) = c_att (clones s c) -> c_q (cl' c) = q ->
+                (x <> FTerm -> c_term (cl' c) = false) -> (x = FTerm -> c_term (cl' c) = true) ->
+                InvTP (root_term s) (root_dropped s) cl' (rnote s)).
+      { intros cl' Hoth Ka Katt Kq Kt1 Kt2. unfold InvT in H. destruct H as (Hok & H8 & H1 & H2 & H5).
+        assert (Hseen : seen_term (cl' c) -> seen_term (clones s c)).
+        { intros [Ht|Hin]; right; rewrite Eq.
+          - destruct x as [e|y|]; [rewrite Kt1 in Ht by discriminate; discriminate Ht..|left; reflexivity].
+          - right. rewrite Kq in Hin. exact Hin. }
+        assert (Hseen' : seen_term (clones s c) -> seen_term (cl' c)).
+        { intros [Ht|Hin]; [rewrite Ent in Ht; discriminate Ht|]. rewrite Eq in Hin. destruct Hin as [Hx|Hin].
+          - left. apply Kt2. exact Hx.
+          - right. rewrite Kq. exact Hin. }
+        split; [exact Hok|]. split; [|split; [|split]].
+        - intros c0. destruct (N.eq_dec c0 c) as [->|Hn]; [|rewrite (Hoth _ Hn); apply H8]. rewrite Kq.
+          specialize (H8 c). rewrite Eq in H8. cbn [length] in H8. lia.
+        - intros Hrt c0. destruct (N.eq_dec c0 c) as [->|Hn]; [|rewrite (Hoth _ Hn); apply H1, Hrt]. intros _ Hatt.
+          apply Hseen'. apply (H1 Hrt c Ea). rewrite <- Katt. exact Hatt.
+        - intros Hin c0. destruct (N.eq_dec c0 c) as [->|Hn]; [|rewrite (Hoth _ Hn); apply H2, Hin]. intros _ Hatt.
+          rewrite Katt in Hatt. destruct (H2 Hin c Ea Hatt) as [?|?]; [left; apply Hseen'; assumption|right; assumption].
+        - intros Hrd c0. destruct (N.eq_dec c0 c) as [->|Hn]; [|rewrite (Hoth _ Hn); apply H5, Hrd]. intros _ Hs.
+          apply (H5 Hrd c Ea). apply Hseen. exact Hs. }
+      assert (Hm : x <> FTerm -> InvT (set_clones (fupd (clones s) c (set_cq q (clones s c))) s)).
+      { intros Hx. unfold InvT. des_st s. cbn in *. apply Hgen.
+        - intros c0 Hn. apply fupd_neq, Hn.
+        - rewrite fupd_eq. exact Ea.
+        - rewrite fupd_eq. reflexivity.
+        - rewrite fupd_eq. reflexivity.
+        - intros _. rewrite fupd_eq. exact Ent.
+        - intros D. destruct (Hx D). }
+      destruct x as [e|y|]; cbn [clone_handle].
+      * specialize (Hm ltac:(discriminate)).
+        destruct (cf_follow cf); [|exact Hm]. unfold InvT in *. des_st s. cbn in *. exact Hm.
+      * specialize (Hm ltac:(discriminate)).
+        destruct (cf_follow cf); [|exact Hm]. unfold InvT in *. des_st s. cbn in *. exact Hm.
+      * unfold InvT. des_st s. cbn in *. apply Hgen.
+        -- intros c0 Hn. rewrite !fupd_neq by exact Hn. reflexivity.
+        -- rewrite !fupd_eq. exact Ea.
+        -- rewrite !fupd_eq. reflexivity.
+        -- rewrite !fupd_eq. reflexivity.
+        -- intros D. destruct (D eq_refl).
+        -- intros _. rewrite !fupd_eq. reflexivity.
+  - (* ACloneDrop *)
+    destruct (c_alive (clones s c) && pub_idle s c && negb (c =? 0)); [|exact H].
+    unfold InvT in *. des_st s. cbn in *. destruct H as (Hok & H8 & H1 & H2 & H5).
+    split; [exact Hok|]. split; [|split; [|split]].
+    + intros c0. unfold fupd. destruct (c0 =? c); [cbn; unfold cmd_queue_len; lia|apply H8].
+    + intros Hrt c0. unfold fupd. destruct (c0 =? c); [cbn; intros D; discriminate D|apply H1, Hrt].
+    + intros Hin c0. unfold fupd. destruct (c0 =? c); [cbn; intros D; discriminate D|apply H2, Hin].
+    + intros Hrd c0. unfold fupd. destruct (c0 =? c); [cbn; intros D; discriminate D|apply H5, Hrd].
+  - destruct (pubs s p) as [n|n snap rest sent]; [destruct (pub_alive s p)|]; exact H.
+  - destruct (pubs s p) as [n|n snap [|[y l] rest] sent]; try exact H.
+    destruct (negb (ch_rx (chans s y))); [exact H|]. destruct (is_direct l); [exact H|].
+    destruct (N.of_nat (length (ch_q (chans s y))) <? cf_cap cf); exact H.
+  - destruct (pubs s p) as [n|n snap [|e rest] sent]; exact H.
+Qed.
+Lemma invT_init : InvT init.
+Proof.
+  unfold InvT, InvTP. cbn. split; [exact note_ok_nil|]. split; [intros _; unfold cmd_queue_len; lia|].
+  split; [intros D; discriminate D|]. split; [intros []|]. intros _ c D. discriminate D.
+Qed.
+
+Definition InvTA (s : st) : Prop := InvA s /\ InvT s.
+
+Lemma invTA_step cf s a : InvTA s -> InvTA (step cf s a).
+Proof. intros [HA HT]. split; [apply invA_step, HA|apply invT_step; assumption]. Qed.
+
+Lemma invTA_run cf tr : InvTA (run cf tr).
+Proof. unfold run. apply run_from_inv; [intros s a; apply invTA_step|]. split; [exact invA_init|exact invT_init]. Qed.
 
 Lemma cterm_stable cf s c :
   c_term (clones s c) = true -> step cf s (ACloneStep c) = s.
@@ -902,15 +1235,228 @@ Proof.
     + apply clone_drain_stable. des_st s. cbn in *. rewrite fupd_eq. reflexivity.
 Qed.
 
+(* ---- back-pressure resolves: the clone the root waits for takes a command off its queue,
+   the root's send goes through *)
+Lemma clone_step_frame cf s c' :
+  let s' := step cf s (ACloneStep c') in
+  rnote s' = rnote s /\ root_term s' = root_term s /\ root_dropped s' = root_dropped s /\
+  (forall c, c_alive (clones s' c) = c_alive (clones s c) /\ c_att (clones s' c) = c_att (clones s c)).
+Proof.
+  cbn [step].
+  destruct (c_alive (clones s c') && negb (c_term (clones s c')));
+    [|split; [reflexivity|split; [reflexivity|split; [reflexivity|intros c; split; reflexivity]]]].
+  destruct (c_q (clones s c')) as [|x q].
+  - destruct (root_dropped s) eqn:Ed;
+      [|split; [reflexivity|split; [reflexivity|split; [exact Ed|intros c; split; reflexivity]]]].
+    des_st s. cbn in *.
+    split; [reflexivity|split; [reflexivity|split; [exact Ed|]]].
+    intros c. destruct (N.eq_dec c c') as [->|Hn]; [rewrite fupd_eq; split; reflexivity|rewrite fupd_neq by exact Hn; split; reflexivity].
+  - destruct x as [e|y|]; cbn [clone_handle]; [destruct (cf_follow cf)|destruct (cf_follow cf)|]; des_st s; cbn in *;
+      (split; [reflexivity|split; [reflexivity|split; [reflexivity|]]]);
+      intros c; (destruct (N.eq_dec c c') as [->|Hn]; [rewrite !fupd_eq; split; reflexivity|rewrite !fupd_neq by exact Hn; split; reflexivity]).
+Qed.
+
+Lemma clone_step_queue cf s c : c_alive (clones s c) = true -> c_term (clones s c) = false ->
+  c_q (clones (step cf s (ACloneStep c)) c) = tl (c_q (clones s c)).
+Proof.
+  intros Ha Ht. cbn [step]. rewrite Ha, Ht. cbn [negb andb].
+  destruct (c_q (clones s c)) as [|x q] eqn:Eq.
+  - destruct (root_dropped s); [|rewrite Eq; reflexivity]. des_st s. cbn in *. rewrite fupd_eq. cbn. exact Eq.
+  - destruct x as [e|y|]; cbn [clone_handle]; [destruct (cf_follow cf)|destruct (cf_follow cf)|]; des_st s; cbn in *;
+      rewrite !fupd_eq; reflexivity.
+Qed.
+
+Lemma root_send_progress cf s c x rest :
+  root_term s = false -> root_dropped s = false -> rnote s = NSend c x :: rest ->
+  (c_alive (clones s c) = true -> N.of_nat (length (c_q (clones s c))) < cmd_queue_len) ->
+  let s' := step cf s ARoot in
+  rnote s' = rest /\ root_term s' = false /\ root_dropped s' = false /\
+  (forall c0, c_alive (clones s' c0) = c_alive (clones s c0) /\ c_att (clones s' c0) = c_att (clones s c0)).
+Proof.
+  intros Hrt Hrd En Hroom. cbn [step]. rewrite Hrt, Hrd. cbn [orb]. rewrite En. unfold note_step. rewrite En.
+  destruct (c_alive (clones s c)) eqn:Ea; cbn [negb].
+  - specialize (Hroom eq_refl). apply N.ltb_lt in Hroom. rewrite Hroom. des_st s. cbn in *.
+    split; [reflexivity|split; [exact Hrt|split; [exact Hrd|]]].
+    intros c0. destruct (N.eq_dec c0 c) as [->|Hn]; [rewrite fupd_eq; cbn; split; reflexivity|rewrite fupd_neq by exact Hn; split; reflexivity].
+  - des_st s. cbn in *. split; [reflexivity|split; [exact Hrt|split; [exact Hrd|]]]. intros c0. split; reflexivity.
+Qed.
+
+(* the root is inside notify_clones(Terminate): after as many rounds of "the clone it waits for
+   takes one command; the root goes on" as there are sends left, process() has returned
+   Err(Terminated) *)
+Lemma push_through_spec cf : forall n s, InvTA s -> root_dropped s = false -> root_term s = false ->
+  In NFinTerm (rnote s) -> length (rnote s) = n ->
+  let s' := push_through cf n s in
+  root_term s' = true /\ InvTA s' /\
+  (forall c, c_alive (clones s' c) = c_alive (clones s c) /\ c_att (clones s' c) = c_att (clones s c)).
+Proof.
+  induction n as [|n IH]; intros s HI Hrd Hrt Hin Hlen.
+  - destruct (rnote s); [destruct Hin|discriminate Hlen].
+  - destruct (rnote s) as [|h rest] eqn:En; [destruct Hin|]. cbn [length] in Hlen. injection Hlen as Hlen.
+    cbn [push_through]. unfold unblock. rewrite En. destruct HI as [HA HT].
+    destruct h as [c' x|].
+    + destruct (clone_step_frame cf s c') as (F1 & F2 & F3 & F4).
+      set (s1 := step cf s (ACloneStep c')) in *.
+      assert (HI1 : InvTA s1) by (apply invTA_step; split; assumption).
+      assert (Hroom : c_alive (clones s1 c') = true -> N.of_nat (length (c_q (clones s1 c'))) < cmd_queue_len).
+      { intros Ha1. destruct (F4 c') as [Fa _]. rewrite Fa in Ha1.
+        unfold InvT in HT. destruct HT as (_ & H8 & _ & _ & H5).
+        assert (Ht : c_term (clones s c') = false).
+        { destruct (c_term (clones s c')) eqn:Et; [|reflexivity]. exfalso.
+          destruct (H5 Hrd c' Ha1 (or_introl Et)) as [_ Hno]. apply (Hno x). rewrite En. left. reflexivity. }
+        unfold s1. rewrite (clone_step_queue cf s c' Ha1 Ht). specialize (H8 c').
+        destruct (c_q (clones s c')) as [|y q]; cbn [tl length] in *; unfold cmd_queue_len in *; lia. }
+      assert (En1 : rnote s1 = NSend c' x :: rest) by (rewrite F1; exact En).
+      assert (Hrt1 : root_term s1 = false) by (rewrite F2; exact Hrt).
+      assert (Hrd1 : root_dropped s1 = false) by (rewrite F3; exact Hrd).
+      destruct (root_send_progress cf s1 c' x rest Hrt1 Hrd1 En1 Hroom) as (G1 & G2 & G3 & G4).
+      set (s2 := step cf s1 ARoot) in *.
+      assert (HI2 : InvTA s2) by (apply invTA_step; exact HI1).
+      assert (Hin2 : In NFinTerm (rnote s2)) by (rewrite G1; destruct Hin as [D|Hin]; [discriminate D|exact Hin]).
+      assert (Hlen2 : length (rnote s2) = n) by (rewrite G1; exact Hlen).
+      destruct (IH s2 HI2 G3 G2 Hin2 Hlen2) as (R1 & R2 & R3).
+      split; [exact R1|]. split; [exact R2|]. intros c.
+      destruct (R3 c) as [R3a R3b]. destruct (G4 c) as [G4a G4b]. destruct (F4 c) as [F4a F4b].
+      split; congruence.
+    + assert (Hr : rest = []).
+      { unfold InvT in HT. destruct HT as (Hok & _). rewrite En in Hok. exact (note_ok_cons_fin _ Hok). }
+      subst rest. cbn [length] in Hlen. subst n. cbn [push_through].
+      assert (HI' : InvTA (step cf s ARoot)) by (apply invTA_step; split; assumption).
+      revert HI'. cbn [step]. rewrite Hrt, Hrd. cbn [orb]. rewrite En. unfold note_step. rewrite En.
+      intros HI'. split; [des_st s; reflexivity|]. split; [exact HI'|]. intros c. des_st s. split; reflexivity.
+Qed.
+
+(* ... and when the root has already returned, or is gone, nothing it could still do matters *)
+Lemma push_through_done cf : forall n s, InvTA s -> root_term s || root_dropped s = true ->
+  let s' := push_through cf n s in
+  root_term s' = root_term s /\ root_dropped s' = root_dropped s /\ InvTA s' /\
+  (forall c, c_alive (clones s' c) = c_alive (clones s c) /\ c_att (clones s' c) = c_att (clones s c)).
+Proof.
+  induction n as [|n IH]; intros s HI Hg.
+  - cbn. split; [reflexivity|split; [reflexivity|split; [exact HI|intros c; split; reflexivity]]].
+  - cbn [push_through].
+    assert (Hu : root_term (unblock cf s) = root_term s /\ root_dropped (unblock cf s) = root_dropped s /\ InvTA (unblock cf s) /\
+      (forall c, c_alive (clones (unblock cf s) c) = c_alive (clones s c) /\ c_att (clones (unblock cf s) c) = c_att (clones s c))).
+    { unfold unblock. destruct (rnote s) as [|[c' x|] rest];
+        try (split; [reflexivity|split; [reflexivity|split; [exact HI|intros c; split; reflexivity]]]).
+      destruct (clone_step_frame cf s c') as (_ & F2 & F3 & F4).
+      split; [exact F2|split; [exact F3|split; [apply invTA_step, HI|exact F4]]]. }
+    destruct Hu as (U1 & U2 & U3 & U4).
+    assert (Hroot : step cf (unblock cf s) ARoot = unblock cf s) by (cbn [step]; rewrite U1, U2, Hg; reflexivity).
+    rewrite Hroot.
+    assert (Hg' : root_term (unblock cf s) || root_dropped (unblock cf s) = true) by (rewrite U1, U2; exact Hg).
+    destruct (IH _ U3 Hg') as (R1 & R2 & R3 & R4).
+    split; [congruence|split; [congruence|split; [exact R3|]]].
+    intros c. destruct (R4 c), (U4 c). split; congruence.
+Qed.
+
+Lemma in_fin_of_existsb r : existsb is_fin r = true -> In NFinTerm r.
+Proof.
+  intros H. apply existsb_exists in H. destruct H as (x & Hin & Hx). destruct x; [discriminate Hx|exact Hin].
+Qed.
+
+(* Terminate reaches every clone, late if need be. On every schedule: a live clone that was
+   attached when the root took Terminate off its queue - even if the root is still inside
+   notify_clones, waiting for room in some clone's full command queue - or any live clone once
+   the root gate has been dropped, gets Err(Terminated) from process(): the clones the root waits
+   for take commands off their queues, the root's sends go through, the clone drains its queue. *)
 Lemma terminate_reaches_clones cf tr c :
   let s := run cf tr in
   c_alive (clones s c) = true ->
-  (root_term s = true /\ c_att (clones s c) = true) \/ root_dropped s = true ->
-  c_term (clones (clone_drain cf (S (length (c_q (clones s c)))) s c) c) = true.
+  (term_started s = true /\ c_att (clones s c) = true) \/ root_dropped s = true ->
+  c_term (clones (term_settle cf s c) c) = true.
 Proof.
-  intros s Ha Hc. apply clone_drain_term; [exact Ha| |lia].
-  destruct Hc as [[Ht Hatt]|Hd]; [|left; exact Hd].
-  right. destruct (invT_run cf tr Ht c Ha Hatt) as [?|?]; [right; assumption|left; assumption].
+  intros s Ha Hc. unfold term_settle. pose proof (invTA_run cf tr) as HI. fold s in HI.
+  destruct (root_term s || root_dropped s) eqn:Eg.
+  - destruct (push_through_done cf (length (rnote s)) s HI Eg) as (E1 & E2 & [_ HT'] & Hfr).
+    set (s' := push_through cf (length (rnote s)) s) in *.
+    destruct (Hfr c) as [Fa Fatt].
+    apply clone_drain_term; [rewrite Fa; exact Ha| |lia].
+    destruct (root_dropped s) eqn:Ed; [left; rewrite E2; reflexivity|].
+    rewrite orb_false_r in Eg. destruct Hc as [[_ Hatt]|D]; [|discriminate D].
+    unfold InvT in HT'. destruct HT' as (_ & _ & H1 & _).
+    rewrite E1 in H1. rewrite <- Fa in Ha. rewrite <- Fatt in Hatt.
+    destruct (H1 Eg c Ha Hatt) as [?|?]; [right; right; assumption|right; left; assumption].
+  - apply orb_false_iff in Eg. destruct Eg as [Et Ed].
+    destruct Hc as [[Hts Hatt]|D]; [|rewrite Ed in D; discriminate D].
+    unfold term_started in Hts. rewrite Et in Hts. cbn [orb] in Hts. apply in_fin_of_existsb in Hts.
+    destruct (push_through_spec cf (length (rnote s)) s HI Ed Et Hts eq_refl) as (R1 & [_ HT'] & Hfr).
+    set (s' := push_through cf (length (rnote s)) s) in *.
+    destruct (Hfr c) as [Fa Fatt].
+    apply clone_drain_term; [rewrite Fa; exact Ha| |lia].
+    unfold InvT in HT'. destruct HT' as (_ & _ & H1 & _).
+    rewrite <- Fa in Ha. rewrite <- Fatt in Hatt.
+    destruct (H1 R1 c Ha Hatt) as [?|?]; [right; right; assumption|right; left; assumption].
+Qed.
+
+(* Terminate is never lost (all schedules): once the root has taken it off its queue, a live
+   attached clone has seen it, or has it queued, or is still on the root's list of sends to do;
+   once the root's process() has returned Err(Terminated) the third case is over *)
+Lemma terminate_never_lost cf tr c :
+  let s := run cf tr in
+  c_alive (clones s c) = true -> c_att (clones s c) = true -> term_started s = true ->
+  c_term (clones s c) = true \/ In FTerm (c_q (clones s c)) \/
+  (root_term s = false /\ In (NSend c FTerm) (rnote s)).
+Proof.
+  intros s Ha Hatt Hts. destruct (invTA_run cf tr) as [_ HT]. fold s in HT.
+  unfold InvT in HT. destruct HT as (_ & _ & H1 & H2 & _).
+  unfold term_started in Hts. destruct (root_term s) eqn:Et.
+  - destruct (H1 eq_refl c Ha Hatt) as [?|?]; [left; assumption|right; left; assumption].
+  - cbn [orb] in Hts. apply in_fin_of_existsb in Hts.
+    destruct (H2 Hts c Ha Hatt) as [[?|?]|?]; [left; assumption|right; left; assumption|right; right; split; [reflexivity|assumption]].
+Qed.
+
+(* a clone's command queue never holds more than COMMAND_QUEUE_LEN commands *)
+Lemma clone_queue_bounded cf tr c :
+  N.of_nat (length (c_q (clones (run cf tr) c))) <= cmd_queue_len.
+Proof. destruct (invTA_run cf tr) as [_ (_ & H8 & _)]. apply H8. Qed.
+
+(* the root's process() waits inside notify_clones only for a LIVE clone whose queue is FULL *)
+Lemma root_waits_only_for_full_queue cf tr c x rest :
+  let s := run cf tr in
+  root_term s = false -> root_dropped s = false -> rnote s = NSend c x :: rest ->
+  step cf s ARoot = s ->
+  c_alive (clones s c) = true /\ N.of_nat (length (c_q (clones s c))) = cmd_queue_len.
+Proof.
+  intros s Hrt Hrd En Hstuck. pose proof (clone_queue_bounded cf tr c) as Hb. fold s in Hb.
+  destruct (c_alive (clones s c)) eqn:Ea.
+  - split; [reflexivity|]. destruct (N.ltb_spec (N.of_nat (length (c_q (clones s c)))) cmd_queue_len) as [Hlt|Hge]; [|lia].
+    exfalso. destruct (root_send_progress cf s c x rest Hrt Hrd En (fun _ => Hlt)) as (G1 & _).
+    rewrite Hstuck, En in G1. apply (f_equal (@length _)) in G1. cbn in G1. lia.
+  - exfalso. assert (Hroom : c_alive (clones s c) = true -> N.of_nat (length (c_q (clones s c))) < cmd_queue_len)
+      by (intros D; rewrite Ea in D; discriminate D).
+    destruct (root_send_progress cf s c x rest Hrt Hrd En Hroom) as (G1 & _).
+    rewrite Hstuck, En in G1. apply (f_equal (@length _)) in G1. cbn in G1. lia.
+Qed.
+
+(* ---- why [term_settle] lets the clone the root waits for run: head-of-line blocking.
+   Clone 1 has 16 commands pending and does not run process(); clone 2 was attached after it.
+   The root has taken Terminate off its queue and waits for room in clone 1's queue. Whatever
+   the root and clone 2 do from here - clone 2 has drained its queue - clone 2 does not get
+   Terminated: not before clone 1 takes a command off its queue or is dropped. *)
+Lemma run_from_fix cf s tr : (forall a, In a tr -> step cf s a = s) -> run_from cf s tr = s.
+Proof.
+  unfold run_from. induction tr as [|a tr IH]; cbn [fold_left]; intros H; [reflexivity|].
+  rewrite (H a (or_introl eq_refl)). apply IH. intros b Hb. apply H. right. exact Hb.
+Qed.
+
+Definition hol_churn : list action := [ASendSub 1; ARoot; ARoot; ARoot; ASendUnsub 1; ARoot; ARoot; ARoot].
+Definition hol_witness : list action :=
+  [AClone; ARoot; AClone; ARoot] ++ hol_churn ++ hol_churn ++ hol_churn ++ hol_churn ++ hol_churn ++ hol_churn ++ hol_churn ++ hol_churn
+  ++ [ASendTerm; ARoot; ARoot; ARoot] ++ repeat (ACloneStep 2) 16.
+
+Lemma terminate_head_of_line :
+  exists cf tr, let s := run cf tr in
+    term_started s = true /\ c_alive (clones s 2) = true /\ c_att (clones s 2) = true /\ c_q (clones s 2) = [] /\
+    length (c_q (clones s 1)) = 16%nat /\
+    forall tr2, (forall a, In a tr2 -> a = ARoot \/ a = ACloneStep 2) ->
+      c_term (clones (run_from cf s tr2) 2) = false.
+Proof.
+  exists (MkCfg 2 false), hol_witness. cbv zeta.
+  split; [vm_compute; reflexivity|]. split; [vm_compute; reflexivity|]. split; [vm_compute; reflexivity|].
+  split; [vm_compute; reflexivity|]. split; [vm_compute; reflexivity|].
+  intros tr2 H2. rewrite run_from_fix; [vm_compute; reflexivity|].
+  intros a Ha. destruct (H2 a Ha) as [->| ->]; vm_compute; reflexivity.
 Qed.
 
 (* ------- invariant C (cf_follow = false): a connected link is in the maps *)
@@ -1090,7 +1636,7 @@ Qed.
 Lemma invC_pop_susp u su ns x b0 q lk : InvLP u su ns (CSusp x b0 :: q) lk ->
   InvCP u su ns (CSusp x b0 :: q) lk ->
   let r := root_handle (MkSt u su ns q false false 0 (fun _ => MkClone false false false []) (fun _ => PIdle 0) lk
-                          (fun _ => MkChan [] true) [] [] []) (CSusp x b0) in
+                          (fun _ => MkChan [] true) [] [] [] [] 0 0) (CSusp x b0) in
   InvCP (upd r) (sus r) ns q lk.
 Proof.
   intros (K1 & _) (C0 & Cf & Cf2 & Cu & C1 & C2 & C3) r.
@@ -1165,6 +1711,7 @@ Proof.
     destruct (ch_q (chans s x)) as [|[p n] q]; exact H.
   - unfold InvC in *. des_st s; cbn in *. eapply invC_push_other; [discriminate|discriminate| |exact H]. tauto.
   - destruct (root_term s || root_dropped s); [exact H|].
+    destruct (rnote s) as [|nh nt] eqn:En; [|note_shape s; exact H].
     destruct (rootq s) as [|c q] eqn:E; [exact H|]. apply invC_root_handle; assumption.
   - destruct (pub_idle s 0); exact H.
   - unfold InvC in *. des_st s; cbn in *. eapply invC_push_other; [discriminate|discriminate| |exact H]. tauto.
@@ -1176,7 +1723,7 @@ Proof.
     unfold InvC in *. des_st s; cbn in *. eapply invC_push_other; [discriminate|discriminate| |exact H]. tauto.
   - destruct (pubs s p) as [n|n snap rest sent]; [destruct (pub_alive s p)|]; exact H.
   - destruct (pubs s p) as [n|n snap [|[y l] rest] sent]; try exact H.
-    destruct (is_direct l); [exact H|]. destruct (negb (ch_rx (chans s y))); [exact H|].
+    destruct (negb (ch_rx (chans s y))); [exact H|]. destruct (is_direct l); [exact H|].
     destruct (N.of_nat (length (ch_q (chans s y))) <? cf_cap cf); exact H.
   - destruct (pubs s p) as [n|n snap [|e rest] sent]; exact H.
 Qed.
@@ -1216,7 +1763,7 @@ Lemma track_step cf p n e s a : Track p n e s -> Track p n e (step cf s a).
 Proof.
   intros H. destruct (pub_action a) eqn:Ha.
   2:{ destruct (step_frame cf s a Ha) as (Ep & _ & Ec). unfold Track. rewrite Ep, Ec. exact H. }
-  destruct a as [| | | | | | | | | |q|q|q]; try discriminate Ha; clear Ha.
+  destruct a as [| | | | | | | | | |q|q|q|xd]; try discriminate Ha; clear Ha.
   - destruct (step_begin_spec cf s q) as [E|(m & Eq & _ & Ep' & _ & Ec)]; [rewrite E; exact H|].
     unfold Track. rewrite Ep', Ec. destruct H as [(snap & rest & sent & E1 & E2)|H]; [left|right; exact H].
     destruct (N.eq_dec p q) as [->|Hn]; [rewrite Eq in E1; discriminate E1|].
@@ -1255,4 +1802,196 @@ Proof.
     cbn [step]. rewrite Hp, Ha. set (s1 := run cf tr1). des_st s1. cbn. apply fupd_eq. }
   destruct Ht as [(snap & rest & sent & E1 & _)|(snap & b & E1 & E2)]; [rewrite Hm in E1; discriminate E1|].
   exact (finished_update_reached_snapshot cf _ p n snap b (x, l) E1 E2).
+Qed.
+
+(* ------------------------------------------------------------- GateMetrics *)
+
+(* what a step does to the counters and to the log of finished updates *)
+Lemma step_m_other cf s a : ends_now s a = false ->
+  m_upd (step cf s a) = m_upd s /\ m_drop (step cf s a) = m_drop s /\ completed (step cf s a) = completed s.
+Proof.
+  intros Ha. destruct a; cbn [step].
+  - destruct (links s l); [destruct (root_dropped s)|..]; des_st s; cbn; repeat split; reflexivity.
+  - destruct (links s l); [| |destruct (is_direct l)]; des_st s; cbn; repeat split; reflexivity.
+  - destruct (links s l) as [| |x b0]; [| |destruct (Bool.eqb b b0)]; des_st s; cbn; repeat split; reflexivity.
+  - destruct (links s l) as [| |x b0]; [| |destruct (is_direct l); [|destruct (ch_q (chans s x)) as [|[p n] q]]];
+      des_st s; cbn; repeat split; reflexivity.
+  - des_st s; cbn; repeat split; reflexivity.
+  - destruct (root_term s || root_dropped s); [repeat split; reflexivity|].
+    destruct (rnote s) as [|nh nt] eqn:En; [|note_shape s; repeat split; reflexivity].
+    destruct (rootq s) as [|c q] eqn:E; [repeat split; reflexivity|].
+    des_st s. destruct c as [l|x|x [|]|c|c|]; cbn; try (repeat split; reflexivity).
+    + destruct (m_find x u); cbn; repeat split; reflexivity.
+    + destruct (m_find x su); cbn; repeat split; reflexivity.
+  - destruct (pub_idle s 0); des_st s; cbn; repeat split; reflexivity.
+  - des_st s; cbn; repeat split; reflexivity.
+  - destruct (c_alive (clones s c) && negb (c_term (clones s c))); [|repeat split; reflexivity].
+    destruct (c_q (clones s c)) as [|x q].
+    + destruct (root_dropped s); des_st s; cbn; repeat split; reflexivity.
+    + destruct x as [e|y|]; cbn [clone_handle]; [destruct (cf_follow cf)|destruct (cf_follow cf)|];
+        des_st s; cbn; repeat split; reflexivity.
+  - destruct (c_alive (clones s c) && pub_idle s c && negb (c =? 0)); des_st s; cbn; repeat split; reflexivity.
+  - destruct (pubs s p) as [n|n snap rest sent]; [destruct (pub_alive s p)|]; des_st s; cbn; repeat split; reflexivity.
+  - destruct (pubs s p) as [n|n snap [|[y l] rest] sent]; try (repeat split; reflexivity).
+    destruct (negb (ch_rx (chans s y))); [des_st s; cbn; repeat split; reflexivity|].
+    destruct (is_direct l); [des_st s; cbn; repeat split; reflexivity|].
+    destruct (N.of_nat (length (ch_q (chans s y))) <? cf_cap cf); des_st s; cbn; repeat split; reflexivity.
+  - cbn [ends_now] in Ha. destruct (pubs s p) as [n|n snap [|e rest] sent]; try (repeat split; reflexivity). discriminate Ha.
+  - des_st s; cbn; repeat split; reflexivity.
+Qed.
+
+Lemma step_m_end cf s a : ends_now s a = true ->
+  exists p n snap sent, a = AEnd p /\ pubs s p = PSending n snap [] sent /\
+    m_upd (step cf s a) = m_upd s + 1 /\
+    m_drop (step cf s a) = (if sent then m_drop s else m_drop s + 1) /\
+    completed (step cf s a) = (p, n, snap, sent) :: completed s.
+Proof.
+  intros Ha. destruct a; try discriminate Ha. cbn [ends_now] in Ha. cbn [step].
+  destruct (pubs s p) as [n|n snap [|e rest] sent] eqn:Ep; try discriminate Ha.
+  exists p, n, snap, sent. des_st s. cbn in *. repeat split; try reflexivity. exact Ep.
+Qed.
+
+Lemma taken_cons e d p n :
+  taken (e :: d) p n = (N.eqb (snd (fst e)) p && N.eqb (snd e) n) || taken d p n.
+Proof. reflexivity. Qed.
+
+Lemma taken_true d p n : taken d p n = true <-> exists x l, In (x, l, p, n) d.
+Proof.
+  unfold taken. rewrite existsb_exists. split.
+  - intros ([[[x l] p'] n'] & Hin & E). cbn in E. apply andb_true_iff in E. destruct E as [E1 E2].
+    apply N.eqb_eq in E1, E2. subst. eauto.
+  - intros (x & l & Hin). exists (x, l, p, n). split; [exact Hin|]. cbn. rewrite !N.eqb_refl. reflexivity.
+Qed.
+
+Lemma taken_false d p n : taken d p n = false <-> forall x l, ~ In (x, l, p, n) d.
+Proof.
+  split.
+  - intros H x l Hin. assert (taken d p n = true) by (apply taken_true; eauto). congruence.
+  - intros H. destruct (taken d p n) eqn:E; [|reflexivity]. apply taken_true in E. destruct E as (x & l & Hin).
+    destruct (H x l Hin).
+Qed.
+
+(* the counters count the finished updates; the flag recorded with a finished update (and the
+   flag of an update in flight) says whether somebody took it *)
+Definition InvM (s : st) : Prop :=
+  m_upd s = N.of_nat (length (completed s)) /\
+  m_drop s = N.of_nat (length (filter (fun e => negb (snd e)) (completed s))) /\
+  (forall p n sn b, In (p, n, sn, b) (completed s) -> b = taken (delivered s) p n) /\
+  (forall p n sn r b, pubs s p = PSending n sn r b -> b = taken (delivered s) p n).
+
+Lemma invM_step cf s a : InvD s -> InvM s -> InvM (step cf s a).
+Proof.
+  intros (_ & D2 & _ & _) (M1 & M2 & M3 & M4).
+  destruct (pub_action a) eqn:Ha.
+  2:{ destruct (step_frame cf s a Ha) as (Ep & Ed & Ec).
+      assert (He : ends_now s a = false) by (destruct a; try reflexivity; discriminate Ha).
+      destruct (step_m_other cf s a He) as (Eu & Edr & _).
+      unfold InvM. rewrite Ep, Ed, Ec, Eu, Edr. repeat split; assumption. }
+  destruct a as [| | | | | | | | | |p|p|p|xd]; try discriminate Ha; clear Ha.
+  - (* begin *)
+    destruct (step_m_other cf s (ABegin p) eq_refl) as (Eu & Edr & _).
+    destruct (step_begin_spec cf s p) as [E|(n & Ep & _ & Ep' & Ed & Ec)].
+    { rewrite E. repeat split; assumption. }
+    unfold InvM. rewrite Ep', Ed, Ec, Eu, Edr. repeat split; try assumption.
+    intros q m sn r b. destruct (N.eq_dec q p) as [->|Hq]; [|rewrite fupd_neq by exact Hq; apply M4].
+    rewrite fupd_eq. intros E. inversion E; subst. symmetry. apply taken_false. intros x l Hin.
+    specialize (D2 p). rewrite Ep in D2. destruct D2 as [Hlt _]. specialize (Hlt _ _ _ Hin). lia.
+  - (* deliver *)
+    destruct (step_m_other cf s (ADeliver p) eq_refl) as (Eu & Edr & _).
+    destruct (step_deliver_spec cf s p) as [E|(n & snap & y & l & rest & sent & Ep & Ec & Hcase)].
+    { rewrite E. repeat split; assumption. }
+    pose proof (D2 p) as Hb. rewrite Ep in Hb. destruct Hb as (_ & _ & _ & _ & Hb5).
+    unfold InvM. rewrite Ec, Eu, Edr.
+    destruct Hcase as [(Ep' & Ed)|(Ep' & Ed & _)]; rewrite Ep', Ed; repeat split; try assumption.
+    + intros q m sn b Hin. rewrite taken_cons. cbn [fst snd].
+      destruct (N.eqb_spec p q) as [<-|Hq]; [|cbn; apply (M3 _ _ _ _ Hin)].
+      destruct (N.eqb_spec n m) as [<-|Hm]; [|cbn; apply (M3 _ _ _ _ Hin)].
+      specialize (Hb5 _ _ _ Hin). lia.
+    + intros q m sn r b. destruct (N.eq_dec q p) as [->|Hq].
+      * rewrite fupd_eq. intros E. inversion E; subst. rewrite taken_cons. cbn [fst snd]. rewrite !N.eqb_refl. reflexivity.
+      * rewrite fupd_neq by exact Hq. intros E. rewrite taken_cons. cbn [fst snd].
+        destruct (N.eqb_spec p q) as [->|_]; [contradiction|]. cbn. apply (M4 _ _ _ _ _ E).
+    + intros q m sn r b. destruct (N.eq_dec q p) as [->|Hq].
+      * rewrite fupd_eq. intros E. inversion E; subst. apply (M4 _ _ _ _ _ Ep).
+      * rewrite fupd_neq by exact Hq. apply M4.
+  - (* end *)
+    destruct (ends_now s (AEnd p)) eqn:He.
+    2:{ destruct (step_m_other cf s (AEnd p) He) as (Eu & Edr & Ec).
+        destruct (step_end_spec cf s p) as [E|(n & snap & sent & Ep & _)]; [rewrite E; repeat split; assumption|].
+        cbn [ends_now] in He. rewrite Ep in He. discriminate He. }
+    destruct (step_m_end cf s (AEnd p) He) as (p' & n & snap & sent & Ea & Ep & Eu & Edr & Ec).
+    inversion Ea; subst p'. clear Ea.
+    destruct (step_end_spec cf s p) as [E|(n' & snap' & sent' & Ep2 & Ep' & Ed & _)].
+    { exfalso. rewrite E in Ec. apply (f_equal (@length _)) in Ec. cbn in Ec. lia. }
+    unfold InvM. rewrite Eu, Edr, Ec, Ed, Ep'. split; [|split; [|split]].
+    + cbn [length]. rewrite M1. lia.
+    + cbn [filter snd]. destruct sent; cbn [negb length]; rewrite M2; lia.
+    + intros q m sn b [E|Hin]; [|apply (M3 _ _ _ _ Hin)]. inversion E; subst. apply (M4 _ _ _ _ _ Ep).
+    + intros q m sn r b. destruct (N.eq_dec q p) as [->|Hq]; [rewrite fupd_eq; discriminate|].
+      rewrite fupd_neq by exact Hq. apply M4.
+Qed.
+
+Lemma invM_init : InvM init.
+Proof. unfold InvM. cbn. repeat split; try (intros; contradiction); intros; discriminate. Qed.
+
+Lemma invM_run cf tr : InvM (run cf tr).
+Proof.
+  assert (H : InvD (run cf tr) /\ InvM (run cf tr)); [|tauto].
+  unfold run. apply (run_from_inv (fun s => InvD s /\ InvM s)).
+  - intros s a [HD HM]. split; [apply invD_step, HD|apply invM_step; assumption].
+  - split; [exact invD_init|exact invM_init].
+Qed.
+
+(* num_updates = number of update_data calls that have returned; num_dropped_updates = number
+   of those that no link took (no hand-over of that update to anybody is in the log) *)
+Lemma gate_counters_count cf tr :
+  m_upd (run cf tr) = n_published (run cf tr) /\ m_drop (run cf tr) = n_dropped (run cf tr).
+Proof.
+  destruct (invM_run cf tr) as (M1 & M2 & M3 & _). split; [exact M1|]. rewrite M2. unfold n_dropped.
+  f_equal. f_equal. apply filter_ext_in. intros [[[p n] sn] b] Hin. unfold cp_dropped. cbn [fst snd].
+  rewrite <- (M3 _ _ _ _ Hin). reflexivity.
+Qed.
+
+(* an update is counted as dropped exactly when nobody took it *)
+Lemma gate_dropped_iff_nobody_took_it cf tr p n sn b :
+  In (p, n, sn, b) (completed (run cf tr)) ->
+  (b = false <-> forall x l, ~ In (x, l, p, n) (delivered (run cf tr))).
+Proof.
+  intros Hin. destruct (invM_run cf tr) as (_ & _ & M3 & _). rewrite (M3 _ _ _ _ Hin). apply taken_false.
+Qed.
+
+(* the same count read off the schedule *)
+Lemma completed_counts_trace cf : forall tr s,
+  length (completed (run_from cf s tr)) = (length (completed s) + finished_in cf s tr)%nat.
+Proof.
+  induction tr as [|a tr IH]; intros s; [cbn; lia|].
+  change (run_from cf s (a :: tr)) with (run_from cf (step cf s a) tr). rewrite IH. cbn [finished_in].
+  destruct (ends_now s a) eqn:He.
+  - destruct (step_m_end cf s a He) as (p & n & snap & sent & _ & _ & _ & _ & Ec). rewrite Ec. cbn [length]. lia.
+  - destruct (step_m_other cf s a He) as (_ & _ & Ec). rewrite Ec. lia.
+Qed.
+
+Lemma gate_num_updates_counts_trace cf tr :
+  m_upd (run cf tr) = N.of_nat (finished_in cf init tr).
+Proof.
+  destruct (invM_run cf tr) as (M1 & _). rewrite M1. unfold run. rewrite completed_counts_trace. reflexivity.
+Qed.
+
+Lemma filter_length_le' {A} (f : A -> bool) l : (length (filter f l) <= length l)%nat.
+Proof. induction l as [|a l IH]; cbn; [lia|]. destruct (f a); cbn; lia. Qed.
+
+(* counters never decrease, and dropped <= published *)
+Lemma gate_counters_monotone cf s a :
+  m_upd s <= m_upd (step cf s a) /\ m_drop s <= m_drop (step cf s a).
+Proof.
+  destruct (ends_now s a) eqn:He.
+  - destruct (step_m_end cf s a He) as (p & n & snap & sent & _ & _ & Eu & Edr & _). rewrite Eu, Edr.
+    destruct sent; lia.
+  - destruct (step_m_other cf s a He) as (Eu & Edr & _). rewrite Eu, Edr. lia.
+Qed.
+
+Lemma gate_dropped_le_published cf tr : m_drop (run cf tr) <= m_upd (run cf tr).
+Proof.
+  destruct (invM_run cf tr) as (M1 & M2 & _). rewrite M1, M2.
+  pose proof (filter_length_le' (fun e : N * N * list entry * bool => negb (snd e)) (completed (run cf tr))). lia.
 Qed.
